@@ -118,7 +118,7 @@ def main():
             continue
         if a.prop and a.prop not in t["props"]:
             continue
-        r = run_target(P, t)
+        r = run_target(P, t, time_budget=2400 if tier == "thorough" else 600)
         out.append(r)
         print(f"{r['name']:28s} {r['status']:12s} paths={r['paths']} obligations={r['discharged']}/{r['obligations']} solver={r.get('solver_time')}s wall={r.get('wall')}s {r.get('why','')}", flush=True)
         if a.v or r["status"] == "failed":
